@@ -30,9 +30,22 @@ def part_values(p: Dict[str, Any]) -> Dict[str, torch.Tensor]:
     raise ValueError(k)
 
 
+def ddf_params(grid, p: Dict[str, Any]) -> torch.Tensor:
+    """Displacement samples of the affine displacement field (A - I) x + t on the cube coordinates of `grid`."""
+    A = torch.tensor(fl(F(p["A"])), dtype=torch.float64)
+    t = torch.tensor(fl(F(p["t"])), dtype=torch.float64)
+    co = grid.coords(align_corners=grid.align_corners()).to(torch.float64)
+    D = A.shape[0]
+    u = co.reshape(-1, D) @ (A - torch.eye(D, dtype=torch.float64)).T + t
+    return u.reshape(co.shape).movedim(-1, 0).unsqueeze(0).float().contiguous()
+
+
 def set_part(t, p: Dict[str, Any]) -> None:
-    v = part_values(p)
     k = p["k"]
+    if k == "ddf":
+        t.data_(ddf_params(t.grid(), p))
+        return
+    v = part_values(p)
     if k == "translation":
         t.offset_(v["offset"])
     elif k in ("scaling", "isoscaling"):
@@ -58,7 +71,8 @@ def build(name: str, parts: List[Dict[str, Any]], grid, holder: str, set_params:
     if base == "Sequential":
         members = []
         for p in parts:
-            cls = {"translation": S.Translation, "rotation": S.EulerRotation, "scaling": S.AnisotropicScaling}[p["k"]]
+            cls = {"translation": S.Translation, "rotation": S.EulerRotation, "scaling": S.AnisotropicScaling,
+                   "ddf": S.DisplacementFieldTransform}[p["k"]]
             m = cls(grid, params=P)
             if set_params:
                 set_part(m, p)
@@ -82,7 +96,11 @@ def build(name: str, parts: List[Dict[str, Any]], grid, holder: str, set_params:
             set_part(t, parts[0])
         return t
     cls = getattr(S, base)
-    t = cls(grid) if False else None
+    if base == "DisplacementFieldTransform":
+        t = cls(grid, params=P)
+        if set_params:
+            set_part(t, parts[0])
+        return t
     if base in ("Translation", "QuaternionRotation", "IsotropicScaling", "AnisotropicScaling", "Shearing", "HomogeneousTransform"):
         t = cls(grid, params=P)
         if set_params:
